@@ -1,3 +1,5 @@
 pub mod common;
 pub mod tree;
 pub mod treeparse;
+pub mod history;
+pub mod histrun;
